@@ -9,6 +9,7 @@ import (
 	"encoding/json"
 	"fmt"
 	"io"
+	"io/fs"
 	"net"
 	"os"
 	"os/exec"
@@ -40,6 +41,7 @@ type sessionSpec struct {
 	// daemon module options (pull: module = SrcRoot, push: module = Dest)
 	ReadOnly  bool   `json:"read_only"`
 	ModSubdir string `json:"mod_subdir"` // push: rsync://host/mod/<subdir>
+	FaultyDir string `json:"faulty_dir"` // pull: serve the module through an fs.FS whose ReadDir fails for this directory
 	TimeoutMs int    `json:"timeout_ms"`
 }
 
@@ -76,6 +78,9 @@ func runSessionInProcess(sp sessionSpec) (res sessionResult) {
 		_, err = cmd.Run(ctx)
 	case "pull", "push":
 		mod := rsyncd.Module{Name: "mod", Path: sp.SrcRoot}
+		if sp.Arr == "pull" && sp.FaultyDir != "" {
+			mod = rsyncd.Module{Name: "mod", FS: faultFS{os.DirFS(sp.SrcRoot), sp.FaultyDir}}
+		}
 		if sp.Arr == "push" {
 			mod = rsyncd.Module{Name: "mod", Path: sp.Dest, Writable: !sp.ReadOnly}
 		}
@@ -169,6 +174,33 @@ func runSessionInProcess(sp sessionSpec) (res sessionResult) {
 		res.Outcome = "ok"
 	}
 	return res
+}
+
+// faultFS serves inner, but reading the directory bad fails (an unreadable
+// source directory, which root cannot produce with chmod).
+type faultFS struct {
+	inner fs.FS
+	bad   string
+}
+
+func (f faultFS) Open(name string) (fs.File, error) { return f.inner.Open(name) }
+func (f faultFS) ReadDir(name string) ([]fs.DirEntry, error) {
+	if name == f.bad {
+		return nil, &fs.PathError{Op: "readdir", Path: name, Err: fs.ErrPermission}
+	}
+	return fs.ReadDir(f.inner, name)
+}
+func (f faultFS) ReadLink(name string) (string, error) {
+	if rl, ok := f.inner.(fs.ReadLinkFS); ok {
+		return rl.ReadLink(name)
+	}
+	return "", fs.ErrInvalid
+}
+func (f faultFS) Lstat(name string) (fs.FileInfo, error) {
+	if rl, ok := f.inner.(fs.ReadLinkFS); ok {
+		return rl.Lstat(name)
+	}
+	return fs.Stat(f.inner, name)
 }
 
 func trailing(s string) string {
